@@ -23,6 +23,9 @@ type Case struct {
 	Kinds     []string `json:"kinds,omitempty"`
 	ShutAfter int      `json:"shutdown_after,omitempty"` // Shutdown is called once this many Execute calls returned (<=0: after all)
 	Reps      int      `json:"reps,omitempty"`
+	// failing-input search: every StallEvery-th task holds its worker for StallMs ms
+	StallMs    int `json:"stall_ms,omitempty"`
+	StallEvery int `json:"stall_every,omitempty"`
 }
 
 type fail struct{ key, what string }
